@@ -187,7 +187,13 @@ func (f *Fosite) DefaultClientAuthenticationStrategy(ctx context.Context, r *htt
 		}
 		// token.Claims.Valid() honours the assertion through the whole second named by 'exp', so the jti has to be
 		// remembered until that second is over, or the assertion can be replayed during it.
-		if err := f.Store.SetClientAssertionJWT(ctx, jti, time.Unix(expiry, 0).Add(time.Second)); err != nil {
+		knownUntil := time.Unix(expiry, 0).Add(time.Second)
+		if knownUntil.Before(time.Now()) {
+			// The expiry passed token.Claims.Valid(), so this is an 'exp' so far in the future that it cannot be
+			// represented as a time: the jti would be stored as already expired and the assertion could be replayed.
+			return nil, errorsx.WithStack(ErrInvalidClient.WithHint("Claim 'exp' from 'client_assertion' is out of range."))
+		}
+		if err := f.Store.SetClientAssertionJWT(ctx, jti, knownUntil); err != nil {
 			return nil, err
 		}
 
